@@ -58,7 +58,9 @@ func Unary23() []U23 {
 		out = append(out, U23{Name: fmt.Sprintf("Extrude3D[%g]", h), Root: "Extrude3D", App: func(c N2) N3 {
 			return lift(c, fmt.Sprintf("Extrude3D[%g]", h), "Extrude3D", RefSet, false, c.Lip,
 				func(s sdf.SDF2) (sdf.SDF3, error) { return sdf.Extrude3D(s, h), nil },
-				func(f Ev2) Ev3 { return func(p v3.Vec) float64 { return math.Max(f(v2.Vec{X: p.X, Y: p.Y}), math.Abs(p.Z)-h/2) } })
+				func(f Ev2) Ev3 {
+					return func(p v3.Vec) float64 { return math.Max(f(v2.Vec{X: p.X, Y: p.Y}), math.Abs(p.Z)-h/2) }
+				})
 		}})
 	}
 	type tw struct{ h, twist float64 }
@@ -101,11 +103,13 @@ func Unary23() []U23 {
 		tname := fmt.Sprintf("ScaleTwistExtrude3D[h=%g twist=120deg scale=%v]", s0.h, s0.scale)
 		out = append(out, U23{Name: tname, Root: "ScaleTwistExtrude3D", App: func(c N2) N3 {
 			return lift(c, tname, "ScaleTwistExtrude3D", RefSet, false, false,
-				func(s sdf.SDF2) (sdf.SDF3, error) { return sdf.ScaleTwistExtrude3D(s, s0.h, sdf.DtoR(120), s0.scale), nil },
+				func(s sdf.SDF2) (sdf.SDF3, error) {
+					return sdf.ScaleTwistExtrude3D(s, s0.h, sdf.DtoR(120), s0.scale), nil
+				},
 				func(f Ev2) Ev3 {
 					return func(p v3.Vec) float64 {
 						k := fac(p.Z)
-						q := rot3(p.Z*sdf.DtoR(120)/s0.h).apply(v2.Vec{X: p.X * k.X, Y: p.Y * k.Y}) // scale, then twist
+						q := rot3(p.Z * sdf.DtoR(120) / s0.h).apply(v2.Vec{X: p.X * k.X, Y: p.Y * k.Y}) // scale, then twist
 						return math.Max(f(q), math.Abs(p.Z)-s0.h/2)
 					}
 				})
